@@ -4,6 +4,7 @@
 #![allow(dead_code, unused_features, unused_imports)]
 //! vh — model-checking harness for rust-osdev/x86_64 (see /verif/DESIGN.md).
 mod arch;
+mod audit;
 mod b64;
 mod mp;
 mod mpsearch;
